@@ -10,7 +10,7 @@ GENERATORS = ['gen_codes']          # C12_Model uses the C05 model of BioSeq.rc,
 RULE = ('round 7 x-stream (700 quick / 6 000 thorough, through run_C12x): gap in {-, ., .-, -., _, ~, *, N, ._, -_, _.-, -~, None} on texts with gap '
         'columns of the chosen set and stray symbols of the others, start in {start, ATG, ATG|GTG|TTG, ATG|CTG, AUG|ATG, GTG, ATG|ATA, stop, '
         'ATGG|AT, TG|ATG} x stop in {stop, TAA, TAA|TAG, TGA, TAG|TGA|TAA, UAA|TAA, TAA|AAT, start, TAAA|TA}, rf names / ints / tuples / lists / '
-        'frames outside -3..2 (alone and mixed) / one numpy integer / float / None / other strings / repeated frames (outside the domain), all modes and minlen; '
+        'frames outside -3..2 (alone and mixed) / one numpy integer / float / None / other strings / repeated frames, all modes and minlen; '
         'exhaustive strings over {A,T,G} up to length 6 (quick) / 9 (thorough; 29 523 strings x 3 configurations: default fwd, default '
         'both, one random mode) plus random DNA/RNA up to 600 columns assembled from random bases, injected start/stop codons on both '
         'strands and gap runs (also inside codons); rf in {fwd,bwd,both,int,tuple,list} x need_start in {always,once,never} x need_stop x '
@@ -48,7 +48,7 @@ ASSUMPTIONS = ['Python str restricted to Latin-1 code points; sequences over ACG
                'custom start/stop: alternations of non-empty words of ASCII letters that are no gap characters (any lengths); regex '
                'syntax beyond "|" is outside the model; feature types and sequence ids are Latin-1 strings (an id None is not generated)',
                'rf: names, ints and tuples/lists of ints (also outside -3..2), ONE numpy integer / float / None (TypeError) and other '
-               'strings (AssertionError) are inside the domain; tuples with repeated frames and bool are outside; '
+               'strings (AssertionError), tuples with repeated frames are inside the domain; bool is outside; '
                'numpy integers inside an rf tuple/list and as minlen, integral floats as minlen, numpy.bool_ and 0/1 as need_stop are inside',
                'domain of run_C12x: sequences over ACGTUN-._~* (and acgtun), minlen >= 0; every need_start/need_stop mode']
 
@@ -243,17 +243,20 @@ def _gen_x_stream(rng, n):
                 fr += rng.sample([0, 1, 2, -1, -2, -3], rng.randint(1, 3))
                 rng.shuffle(fr)
             rf, tup = (fr[0] if len(fr) == 1 and rng.random() < 0.5 else fr), rng.random() < 0.6
-        elif x < 0.86:
+        elif x < 0.84:
             rf = {'np': rng.choice([0, 1, 2, -1, -2, -3, 5])}
-        elif x < 0.9:
+        elif x < 0.86:
             rf = {'float': float(rng.choice([0, 1, -1]))}
-        elif x < 0.94:
+        elif x < 0.88:
             rf = None
-        elif x < 0.97:
+        elif x < 0.9:
             rf = rng.choice(['forward', 'FWD', 'all', '', '+', 'fwd ', '0'])
-        else:
-            rf = [rng.choice([0, 1, -1]) for _ in range(rng.randint(2, 3))]      # possibly repeated frames: outside the domain
-            tup = True
+        else:                                          # repeated frames: the second pass reads the popped lists
+            fr = rng.sample([0, 1, 2, -1, -2, -3], rng.randint(1, 3))
+            fr += [rng.choice(fr) for _ in range(rng.randint(1, 2))]
+            if rng.random() < 0.5:
+                rng.shuffle(fr)
+            rf, tup = fr, rng.random() < 0.6
         if rng.random() < 0.4:
             cfg = dict(need_start='always', need_stop=True, minlen=0)
         else:
@@ -904,6 +907,10 @@ def _one_spec(case, got):
     for a, e, strand, f in base:
         if not (0 <= a < e <= L) or f not in frames:
             return 'minlen=0 result has interval (%d, %d, rf=%r) not inside the sequence of length %d' % (a, e, f, L)
+    if len(set(frames)) != len(frames):
+        if not default:
+            return None                          # a second pass over a frame sees the popped match lists: modelled (orfs_frames_st), not claimed
+        frames = list(dict.fromkeys(frames))     # default settings: a repeated frame contributes nothing the second time
     exp = []
     sset, ok1 = _codon_set(case, 'start')
     pset, ok2 = _codon_set(case, 'stop')
@@ -1327,7 +1334,7 @@ def python_snippet(case):
     return ("import sys; sys.path.insert(0, '/verif/tools'); from props import c12; "
             "print(c12._hist_impl(%r))" % (case,))
 
-LEVEL_TEXT = ('Machine-checked Coq theorems (32, all closed under the global context) about a line-by-line Gallina model of find_orfs, '
+LEVEL_TEXT = ('Machine-checked Coq theorems (34, all closed under the global context) about a line-by-line Gallina model of find_orfs, '
               '_frame_start, _inds2orf, the codon locator of match(), BioSeq/BioBasket.find_orfs and the len_* filters. Every clause of the '
               'property text is a theorem about the model: '
               '(1) every mode, every sequence, rf, minlen, no hypothesis: the fuelled pairing loop terminates within |starts|+|stops|+1 '
@@ -1363,8 +1370,12 @@ LEVEL_TEXT = ('Machine-checked Coq theorems (32, all closed under the global con
               '(a, e) with is_orf_x, once, in order (C12_custom_is_orf). The default-settings clause against the declarative predicate '
               'is_orf(text, frame, a, e), both strands, any frame list: sound, complete, no duplicates, increasing order '
               '(C12_default_is_orf) with residue offset = frame and residue count divisible by three (C12_is_orf_residues). Every rf form: '
-              'names, ints, tuples, one numpy integer / float / None (TypeError), another string (AssertionError) (C12_rf_forms); frames '
-              'outside -3..2 hold no codon (C12_out_of_range_frame). The model is tied to sugar by differential testing on every '
+              'names, ints, tuples, one numpy integer / float / None (TypeError), another string (AssertionError), and tuples with REPEATED '
+              'frames through a loop that hands the popped match lists on to a later pass over the same frame (orfs_frames_st; without '
+              'repetition it is proved equal to the plain loop) (C12_rf_forms); frames outside -3..2 hold no codon '
+              '(C12_out_of_range_frame). is_orf is a predicate on the TEXT: on gap-free input it is stated by positions and word '
+              'prefixes only (C12_is_orf_text), and on any gapped text the listed ORFs are one to one, in order, the text-level ORFs of '
+              'the degapped sequence (C12_default_orfs_text). The model is tied to sugar by differential testing on every '
               'run (run_C12 and run_C12_basket); an independent codon-scan oracle checks the property text on the same cases.')
 LEVEL_NOTE = ('Trusted: Coq kernel/vm_compute, the correspondence harness, CPython re/bisect/str.rstrip/functools.reduce. Modelled rather '
               'than verified: find_orfs, _frame_start, _inds2orf, match() with the default start/stop patterns and gap="-", the '
@@ -1384,8 +1395,9 @@ LEVEL_NOTE = ('Trusted: Coq kernel/vm_compute, the correspondence harness, CPyth
               'gap="-" and an rf; they belong to C13. The defects never_frame_start / gap_tail found by this check are repaired in /repo '
               '(0bbdf85); their witnesses are regression cases in corpus/C12 and an Example in C12_Props.v; corpus/C12/shapes.json holds '
               'the witnesses of the round-6 self-mutation round (long gap runs, gap-only tails, positional calls, custom types, numpy '
-              'frames, boundary len filters). rf tuples with REPEATED frames are outside the correspondence domain (find_orfs pops from the '
-              'per-frame match lists, a second pass over the same frame sees what the first left: not modelled); out-of-range frames, one '
-              'numpy integer / float / None / other strings as rf and the empty basket are inside. match(): 52/55 statements, missing 210, 242, 256 '
+              'frames, boundary len filters). rf tuples with repeated frames (find_orfs pops from the per-frame match lists, a second pass over the same '
+              'frame sees what the first left: modelled by orfs_frames_st and compared; the oracle claims only that a repeated frame adds '
+              'nothing under default settings), out-of-range frames, one '
+              'numpy integer / float / None / other strings as rf and the empty basket are inside the domain of run_C12x (run_C12 keeps its narrower domain). match(): 52/55 statements, missing 210, 242, 256 '
               '(BioSeq pattern, return m for matchall=False: unreachable through find_orfs). No axioms.')
 TECHNIQUE = 'Coq proof over an executable model + differential correspondence + first-principles oracle'
